@@ -313,7 +313,10 @@ def static_equiv(c, c2, raw=None, sym=None, path=""):
                 r = static_equiv(k1, k2, path=path + "const[%d]." % a1)
                 if r:
                     return r
-            elif skey(k1) != skey(k2):
+            elif skey(k1, True) != skey(k2, True):
+                # NaNs are identified (as everywhere in these properties): the library
+                # treats every NaN as the same constant, so normalization may load a NaN
+                # with other payload/sign bits
                 return ("operand:const", "%sinstruction %d %s: constant %s became %s" % (path, idx, name, short(k1), short(k2)))
         elif op1 in ref.HASNAME:
             if c.co_names[a1] != c2.co_names[a2]:
